@@ -40,7 +40,10 @@ func c19Script(r *rand.Rand) (string, map[string]interface{}) {
 		first := true
 		for i := 0; i < n; i++ {
 			var key string
-			switch r.Intn(7) {
+			switch r.Intn(8) {
+			case 7:
+				// numbers that are not numbers: several bit patterns print alike
+				key = []string{`float("nan")`, `0 - float("nan")`, `float("inf") - float("inf")`, `float("inf")`, `0 - float("inf")`, `0.0 * (0 - 1)`, `0.0`, `float("nan") * 2`}[r.Intn(8)]
 			case 0:
 				key = fmt.Sprint(r.Intn(30))
 			case 1:
